@@ -320,6 +320,18 @@ def tables(ctx):
   ok = len(adv) == 2 and norm_text(adv[0].value) == norm_text(adv[1].value) and 'ord(step) - ord(\'A\') + 1) % 7' in norm_text(adv[0].value)
   ctx.ob('TAB/letter-advance', tp, adv[0] if adv else tp.node, ok, 'both letter advances are the same next-letter expression' if ok else
          'the letter advance differs between the two places, or is not next-letter modulo 7', construct='step = next letter (mod 7), twice')
+  # location-independent: the letter walk only ever goes up, so the amount must be brought into 0..11 by a true modulo; a conditional
+  # "+= 12" brings only -12..-1 there, and an amount of -13 or less stays negative, is walked zero steps and comes back unchanged
+  amt = tp.params()[2] if len(tp.params()) > 2 else 'transpose_amount'
+  mods = [n for n in ast.walk(tp.node) if (isinstance(n, ast.AugAssign) and isinstance(n.op, ast.Mod) and norm_text(n.target) == amt) or
+          (isinstance(n, ast.BinOp) and isinstance(n.op, ast.Mod) and amt in U.names_in(n.left))]
+  bumps = [s for s in U.walk_stmts(tp.node) if isinstance(s, ast.AugAssign) and norm_text(s.target) == amt and isinstance(s.op, (ast.Add, ast.Sub)) and
+           U.const_value(s.value) == 12 and U.enclosing_tests(tp.node, s)]
+  if bumps and not mods:
+    ctx.ob('TAB/mod-12', tp, bumps[0], False, '%s under %s is the only reduction of the amount: it maps -12..-1 into 0..11 but leaves -13 and below negative (and 12 and above '
+           'unreduced), so a chord transposed by such an amount keeps its root and bass while notes and key signatures move' % (
+               norm_text(bumps[0]), ', '.join(norm_text(t) for t, _p in U.enclosing_tests(tp.node, bumps[0]))), construct='transpose_amount %= 12', definite=True)
+    return
   first = tp.node.body[1] if isinstance(tp.node.body[0], ast.Expr) else tp.node.body[0]
   ok = isinstance(first, ast.AugAssign) and isinstance(first.op, ast.Mod) and U.const_value(first.value) == 12 and norm_text(first.target) == 'transpose_amount'
   ctx.ob('TAB/mod-12', tp, first, ok, 'the amount is reduced modulo 12 first' if ok else 'the amount is not reduced modulo 12 before the letter walk', construct='transpose_amount %= 12')
@@ -517,6 +529,16 @@ def melody_paths(ctx, fi, N):
              construct='Melody.transpose: %s case' % kind, definite=True)
 
 
+def carried_previous(ctx, fi, rule, why):
+  """Location-independent (astutil.carried_previous_deviations): a variable compared with the current iteration's value plays
+  "that value at the previous iteration"; an assignment in the loop that stores a constant or a derived value in it breaks that."""
+  for lp in ast.walk(fi.node):
+    if isinstance(lp, ast.For):
+      for c, x, a, st, rhs in U.carried_previous_deviations(fi.node, lp):
+        ctx.ob(rule, fi, st, False, '%s is compared with %s (%s) as its value at the previous iteration, but %s stores %s in it: %s' % (
+            x, norm_text(a), norm_text(c), norm_text(st)[:80], norm_text(rhs), why), construct='%s holds the previous %s' % (x, norm_text(a)), definite=True)
+
+
 def sequences(ctx):
   fd = fold.Folder(ctx.P, ctx.S)
   # Melody.transpose
@@ -560,6 +582,8 @@ def sequences(ctx):
          construct='self.transpose(transpose_amount, min_note, max_note); return transpose_amount')
   # ChordProgression.transpose
   cp = ctx.func('chords_lib:ChordProgression.transpose')
+  carried_previous(ctx, cp, 'SEQ/chords-memo-key', 'a result remembered for "the same figure as at the previous step" must be keyed by the figure that was *read*, not by what was '
+                   'written back: otherwise a chord that equals its predecessor\'s transposition (C then G, up 7) is taken for a repeat and left untransposed')
   cp = Canon(cp, roles.discover(cp, {'i': lambda fn: [n.target.id for n in fn.body if isinstance(n, ast.For) and isinstance(n.target, ast.Name)]}))
   loop = next((n for n in cp.node.body if isinstance(n, ast.For)), None)
   ctx.require(loop is not None, 'ChordProgression.transpose: loop not found')
